@@ -31,7 +31,7 @@ def with_nonorth(spec, settings):
 
 def plan(tier, seed):
     bases = [cases.tok("cdn", s=1, fs=1, orth=False, tag="c15-cdn")]
-    hist_idx = [[0], [1, 0], [2, 4, 2]]
+    hist_idx = [[0], [1, 5], [2, 4, 2]]  # [1, 5]: the last call changes only the radial power
     if tier == "thorough":
         bases += [cases.tok("ldn", s=-1, fs=1, orth=False, tag="c15-ldn"), cases.tok("udn", s=1, fs=-1, orth=False, guards=2, tag="c15-udn"), cases.tok("lsn", s=-1, fs=1, orth=False, tag="c15-lsn", nonorthogonal_spacing_method="poloidal_orthogonal_combined")]
         hist_idx += [[3, 0, 3, 1], [0, 0], [5, 6, 3], [6, 4]]
